@@ -39,7 +39,7 @@ type C20 struct {
 	named  map[string]bool
 }
 
-func NewC20() *C20          { return &C20{st: NewStats("C20")} }
+func NewC20() *C20           { return &C20{st: NewStats("C20")} }
 func (m *C20) Stats() *Stats { return m.st }
 
 func okey(kind string, id uint64) string { return fmt.Sprintf("%s/%d", kind, id) }
